@@ -332,19 +332,28 @@ deriving DecidableEq, Repr, Inhabited
 def tbxFetch (file : List TbxRec) (c s e : Nat) : List TbxRec :=
   file.filter fun r => decide (r.c1 = some c) && decide ((s : Int) ≤ r.p1) && decide (r.p1 < (e : Int))
 
-/-- rows produced for one `bin1` (absolute id `i`): `Counter` over `bin2_id`, listed by `bin2_id` -/
+/-- the `(bin1, bin2)` hits collected for one `bin1` (absolute id `i`, bin `b`) -/
+def tbxHits (bins : BinTable) (binsize : Option Nat) (oneBased : Bool) (file : List TbxRec)
+    (i : Nat) (b : Bin) : List (Key × Int) :=
+  (tbxFetch file b.chrom b.start b.stop).filterMap fun r =>
+    r.c2.map fun c2 =>
+      (((i : Int), assignBin bins binsize c2 (r.p2 - (if oneBased then 1 else 0))), (0 : Int))
+
+/-- rows produced for one `bin1`: `Counter` over `bin2_id`, listed by `bin2_id` -/
 def tbxRow (bins : BinTable) (binsize : Option Nat) (oneBased : Bool) (file : List TbxRec)
     (i : Nat) (b : Bin) : List Cell :=
-  let d : Int := if oneBased then 1 else 0
-  let hits := (tbxFetch file b.chrom b.start b.stop).filterMap fun r =>
-    r.c2.map fun c2 => (((i : Int), assignBin bins binsize c2 (r.p2 - d)), (0 : Int))
-  groupCells hits
+  groupCells (tbxHits bins binsize oneBased file i b)
 
 /-- the whole stream: every bin of the table in order (the partition into `granges` only groups
 consecutive bins; it is a free choice the result does not depend on) -/
 def tabixAggregate (bins : BinTable) (oneBased : Bool) (file : List TbxRec) : List Cell :=
-  let binsize := getBinsize bins
-  ((List.range bins.length).zip bins).flatMap fun ib => tbxRow bins binsize oneBased file ib.1 ib.2
+  ((List.range bins.length).zip bins).flatMap fun ib =>
+    tbxRow bins (getBinsize bins) oneBased file ib.1 ib.2
+
+/-- the records of an indexed file as zero-based pair records (`pos2` shifted as the aggregator does;
+`pos1` is already what the index reports) -/
+def tbxRecs (oneBased : Bool) (file : List TbxRec) : List Rec :=
+  file.map fun r => ⟨r.c1, r.p1, r.c2, r.p2 - (if oneBased then 1 else 0), [], [], []⟩
 
 /-! ### L0 — what the property promises -/
 
